@@ -7,7 +7,8 @@
 
   One established connection at tick 0 that stays up; the peer's traffic is a list of arrivals
   (absolute, non-decreasing ticks; `pong` or `data`).  The ping thread waits `iv` twice before its first
-  ping, so pings are due at 2·iv, 3·iv, …; it writes `last_ping_tm := now` *before* sending.
+  ping, so pings are due at 2·iv, 3·iv, …; it writes `last_ping_tm := now` *before* sending — when the previous ping has
+  been answered (`last_pong_tm >= last_ping_tm`); a pong is timed (`last_pong_tm := now`) when it answers an outstanding ping.
   The main loop blocks in `select(to)` until the next arrival or `now + to`, whichever is earlier;
   one arrival is processed per iteration; `check()` runs after every iteration.
   When a ping is due at exactly the tick at which the main loop wakes, the schedule decides who runs
@@ -40,7 +41,11 @@ structure St where
     `self.last_ping_tm = time.time(); self.sock.ping(payload)`; then it waits again -/
 def fire (iv : Nat) (s : St) : St :=
   if s.first then { s with first := false, wake := s.wake + iv }
-  else { s with lastPing := s.wake, pings := s.pings ++ [s.wake], wake := s.wake + iv }
+  else
+    -- `if self.last_pong_tm >= self.last_ping_tm: self.last_ping_tm = time.time()` — an unanswered ping keeps its stamp
+    -- (generated fact `appPingStampWhenAnswered`; the pinned commit stamped every ping)
+    let lp := if Gen.appPingStampWhenAnswered && decide (s.lastPong < s.lastPing) then s.lastPing else s.wake
+    { s with lastPing := lp, pings := s.pings ++ [s.wake], wake := s.wake + iv }
 
 /-- the main loop sleeps until tick `t`: pings due before `t` are sent, one due at `t` is ordered by the schedule -/
 def advance (iv : Nat) : Nat → St → Nat → St
@@ -77,7 +82,11 @@ def consume (s : St) : St :=
   | (a, k) :: rest =>
     if a ≤ s.now then
       match k with
-      | .pong => { s with arr := rest, lastPong := s.now }
+      | .pong =>
+        -- `if self.last_pong_tm < self.last_ping_tm: self.last_pong_tm = time.time()` — only the answer to the outstanding
+        -- ping is timed (generated fact `appPongStampWhenOutstanding`; the pinned commit stamped every pong)
+        { s with arr := rest,
+                 lastPong := if Gen.appPongStampWhenOutstanding && !decide (s.lastPong < s.lastPing) then s.lastPong else s.now }
       | .data => { s with arr := rest }
     else s
   | [] => s
